@@ -30,7 +30,7 @@ func main() {
 	out := flag.String("out", "", "output directory")
 	ov := flag.String("overlay", "", "overlay json to write")
 	src := flag.String("src", "_overlay", "directory with verifsched/ and verifshim/ sources")
-	pkgs := flag.String("pkgs", "traversal,bep44", "comma-separated package directories (relative to repo) to rewrite")
+	pkgs := flag.String("pkgs", "traversal,bep44,.", "comma-separated package directories (relative to repo) to rewrite")
 	flag.Parse()
 	replace := map[string]string{}
 	must := func(err error) {
@@ -87,7 +87,11 @@ func main() {
 			if !changed {
 				continue
 			}
-			dst := filepath.Join(*out, "rw", strings.ReplaceAll(p, "/", "_")+"_"+n)
+			pn := strings.ReplaceAll(p, "/", "_")
+			if p == "." {
+				pn = "root"
+			}
+			dst := filepath.Join(*out, "rw", pn+"_"+n)
 			must(os.MkdirAll(filepath.Dir(dst), 0o755))
 			w, err := os.Create(dst)
 			must(err)
